@@ -8,5 +8,6 @@ CONSTANTS
   UntouchedIfNoSite = TRUE
   WalkEverywhere = FALSE
   OnePin = TRUE
+  SiteIndependent = TRUE
   Tier = "neg"
 INVARIANTS Complete
